@@ -37,7 +37,7 @@ def expected(names, types, edges):
     return True
 
 
-def run(ctx):
+def _run_main(ctx):
     rng = ctx.rng
     cases, obs, reqs = [], [], []
 
@@ -187,3 +187,11 @@ def run(ctx):
             ctx.violate(case, "a repeated type check of one graph object does not judge the edge list as it now is",
                         {"site": "_check_types", "what": "recheck-rewired", "accepted": bad["accepted"]}, observed=bad)
     ctx.compare("graphs", cases, obs, reqs)
+
+
+def run(ctx):
+    _run_main(ctx)
+    # history independence: the same call on a live graph object with a history of edits / calls and on a twin rebuilt
+    # from its public state (harness/history.py)
+    import history
+    history.run(ctx, ["check"], {"check": "the type check of a graph object with a history"})
